@@ -9,7 +9,8 @@
 
 using namespace c19;
 
-namespace {
+// shared with C19_icase.cpp (declared in C19_common.hpp)
+namespace c19 {
 
 // ---- references written from RFC 4648 -------------------------------------------------------------------
 std::string ref_base64(const std::string& in) {
@@ -39,6 +40,10 @@ std::string ref_hex(const std::string& in, bool upper) {
     }
     return out;
 }
+} // namespace c19
+
+namespace {
+
 //! RFC 4648 section 10 test vectors; a wrong reference must not be able to produce a verdict
 bool reference_selftest() {
     static const char* const plain[7] = {"", "f", "fo", "foo", "foob", "fooba", "foobar"};
